@@ -16,6 +16,8 @@ RULES = {
     "R5": "predict and jacobian of the same class flatten the force coordinates the same way",
     "R6": "values handed from one step to the next keep their dtype and their order: filter residuals are not narrowed (C06.R4), block reductions come out in the order of the "
           "sorted block labels their coordinates use (C09.R4, C10.R2)",
+    "R7": "check_fit_input (the one place every fit / filter validates its inputs) returns (coordinates, data, weights) in that order with every weight passed through np.ravel - a bare, C-raveled "
+          "ndarray whatever container the caller used (a weight handed back as given keeps a pandas index and is later indexed by label) (C02.R4)",
 }
 ASSUMPTIONS = ["invariance under permutation of the points, linearity in the data, pandas containers and round-off are relations between pairs of executions of numerical code (declined)"]
 ALLOC = {"numpy.empty", "numpy.zeros", "numpy.ones", "numpy.full", "numpy.empty_like", "numpy.zeros_like", "numpy.ones_like", "numpy.full_like"}
@@ -309,6 +311,11 @@ def check(ctx):
     ctx.alias = {"R1": "R2", "R3": "R2"}      # the components handed to the solver are flattened, in the order of the Jacobian's blocks (C02.R1/R3)
     try:
         c02.r1_weights(ctx)
+    finally:
+        ctx.alias = {}
+    ctx.alias = {"R4": "R7"}          # container independence rests on check_fit_input handing out bare, C-raveled ndarrays
+    try:
+        c02.r4_check_fit_input(ctx)
     finally:
         ctx.alias = {}
     for mod, fn, src in ((c06, "r4_filter", "R4"), (c10, "r2_uncertainty", "R2"), (c10, "r3_unweighted", "R3"), (c09, "r_block_coordinates", "R4")):
